@@ -79,6 +79,22 @@ Section CapFacts.
     destruct (from_string x false) as [n|[e|]]; reflexivity.
   Qed.
 
+  (* UnknownNode(w, None): a single cap given in the write slot *)
+  Lemma unknown_node_rw_only (w : bytes) :
+    w <> [] ->
+    unknown_node (Some w) None false
+    = if prefixed w
+      then match from_string w false with
+           | FUnknown (Some e) => opaque_node (Some e)
+           | _ => unknown_plain None w
+           end
+      else opaque_node (Some EMustNotBeUnknownRW).
+  Proof.
+    intro H. unfold Dirnode.unknown_node. cbv zeta. rewrite !(truthy_some _ H). cbn [truthy].
+    destruct (prefixed w); [|reflexivity].
+    destruct (from_string w false) as [n|[e|]]; reflexivity.
+  Qed.
+
   Lemma cfc_none_some di (x : bytes) :
     x <> [] ->
     create_from_cap di None (Some x)
@@ -350,9 +366,7 @@ Section CapFacts.
         * unfold prefixed. rewrite Hbr, Hbi, Er. cbn [orb]. rewrite <- Hx. reflexivity.
         * intros _ _ _. rewrite Hfb.
           destruct (classify body) as [d c r|d c|d c|g| | |]; eauto.
-          -- exfalso. eapply Herr. rewrite Hfs. reflexivity.
-          -- exfalso. destruct g; eapply Herr; rewrite Hfs; reflexivity.
-          -- exfalso. eapply Herr. rewrite Hfs. reflexivity.
+          exfalso. destruct g; eapply Herr; rewrite Hfs; reflexivity.
       + repeat split; auto; try (intros; discriminate).
   Qed.
 
@@ -414,11 +428,9 @@ Section CapFacts.
           { destruct (from_string (ro_field r1) false) as [?|[e|]]; try reflexivity. exfalso. eapply Hey. reflexivity. }
           rewrite Hn. unfold unknown_plain. rewrite Hroy. reflexivity.
         * (* only a write-slot cap: accepted when it carries an alleged prefix; it then is the read cap *)
-          unfold Dirnode.unknown_node in *. cbn [truthy] in *. rewrite (truthy_some _ Hnew) in *.
+          rewrite (unknown_node_rw_only w1 Hnew) in *.
           destruct (prefixed w1) eqn:Ep; [|discriminate].
           rewrite F in *. destruct e0 as [e|]; [discriminate|]. clear Herr.
-          change ({| n_kind := NUnknown; n_rw := None; n_ro := (if prefixed w1 then Some w1 else Some (RO_PREFIX ++ w1)); n_mut := false; n_err := None |})
-            with (unknown_plain None w1).
           assert (Hnoerr : forall e, from_string w1 false <> FUnknown (Some e)) by (intros e He; rewrite He in F; discriminate).
           destruct (ro_field_back w1 Hokw Hnew Hnoerr) as (Hy & Hry & Hey & Hiy & Hroy & Hkind).
           unfold reread. rewrite stored_ro_unknown_plain. cbn [n_rw unknown_plain or_empty rstrip_sp nonempty].
@@ -432,7 +444,7 @@ Section CapFacts.
             assert (Hbp : prefixed (skipn 3 w1) = false).
             { destruct Hokw as [_ Hpre]. destruct (Hpre Ep) as [_ Hbp]. unfold body_of in Hbp. rewrite Ei, Er2 in Hbp. exact Hbp. }
             rewrite (from_string_plain _ Hbp) in Hk. rewrite Hx, from_string_ro in F.
-            destruct (classify (skipn 3 w1)) as [d c r0|d c|d c|g| | |]; try discriminate. destruct g; discriminate. }
+            destruct (classify (skipn 3 w1)) as [d c r0|d c|d c|g| | |]; try discriminate; try (destruct g; discriminate). }
           rewrite Hfy, (unknown_node_ro_only _ Hy), Hfy. unfold unknown_plain. rewrite Hroy. reflexivity.
       + (* only a read-slot cap *)
         destruct (truthy r) as [r1|] eqn:Er; [|discriminate]. inversion Eb; subst b. clear Eb.
@@ -454,7 +466,7 @@ Section CapFacts.
           assert (Hbp : prefixed (skipn 3 r1) = false).
           { destruct Hokr as [_ Hpre]. destruct (Hpre Hp) as [_ Hbp]. unfold body_of in Hbp. rewrite Ei, Er2 in Hbp. exact Hbp. }
           rewrite (from_string_plain _ Hbp) in Hk. rewrite Hx, from_string_ro in F.
-          destruct (classify (skipn 3 r1)) as [d c r0|d c|d c|g| | |]; try discriminate. destruct g; discriminate. }
+          destruct (classify (skipn 3 r1)) as [d c r0|d c|d c|g| | |]; try discriminate; try (destruct g; discriminate). }
         rewrite Hfy, (unknown_node_ro_only _ Hy), Hfy. unfold unknown_plain. rewrite Hroy. reflexivity.
   Qed.
 End CapFacts.
